@@ -246,7 +246,7 @@ fn real_server_outputs(ctx: &Ctx, out: &mut Out, rng: &mut Rng) {
     use crate::procs::*;
     use crate::refimpl::crypto::{Proto, RefKey};
     use std::time::Duration;
-    let n = ctx.share(96, 800);
+    let n = ctx.share(112, 900); // (3 x 35 failing-start kinds + margin: every kind at least once in the quick tier)
     for i in 0..n {
         let k = i * ctx.nshards + ctx.shard;
         // one run in five uses a seed whose hex form consists of decimal digits only (YAML types
@@ -291,7 +291,13 @@ fn real_server_outputs(ctx: &Ctx, out: &mut Out, rng: &mut Rng) {
         }
         if failing {
             let hx = hex(&seed);
-            let (kk, vv, w): (&str, String, &str) = match (k / 3) % 29 {
+            let (kk, vv, w): (&str, String, &str) = match (k / 3) % 35 {
+                29 => ("__raw__noseed_noif_a", format!("seed: {}\ninterface:", hx), "a blank interface right after the seed line"),
+                30 => ("__raw__noseed_noif_b", format!("seed: {}\ninterface: ~", hx), "a null interface right after the seed line"),
+                31 => ("__raw__noseed_c2", format!("seed: {}\npersistence_directory:\nclient_stats: on", hx), "a blank persistence_directory right after the seed line"),
+                32 => ("seed", format!("\"{}\u{201d}", hx), "ENV seed in an ASCII opening and a typographic closing quote"),
+                33 => ("seed", format!("\u{201c}{}\u{201d}", hx), "ENV seed in typographic quotes"),
+                34 => ("seed", format!("'{}\u{2019}", hx), "ENV seed in an ASCII opening and a typographic closing single quote"),
                 21 => ("__raw__noseed_a", format!("seed:\n  '{}\"", hx), "YAML syntax error inside the seed value written on its own indented line"),
                 22 => ("__raw__noseed_b", format!("\"seed\": '{}\"", hx), "YAML syntax error in the seed value under a quoted key"),
                 23 => ("__raw__noseed_c", format!("{{seed: '{}\", batch_size: 1}}", hx), "YAML syntax error in the seed value inside a flow mapping"),
@@ -327,6 +333,12 @@ fn real_server_outputs(ctx: &Ctx, out: &mut Out, rng: &mut Rng) {
             }
             if kk.starts_with("__raw__noseed") {
                 pairs.retain(|(a, _)| a != "seed");
+            }
+            if kk.starts_with("__raw__noseed_noif") {
+                pairs.retain(|(a, _)| a != "interface");
+            }
+            if (32..=34).contains(&((k / 3) % 35)) {
+                cfg.via_env = true;
             }
             if vv.starts_with("__hexbytes__") {
                 cfg.via_env = true;
